@@ -100,10 +100,14 @@ def _harness_dir():
     return d
 
 
-def build_harness(variant="std"):
-    """cargo build of the harness against /repo's current working tree."""
-    if variant in _built:
-        return _built[variant]
+def build_harness(variant="std", binary=None):
+    """cargo build of the harness (one binary, or everything) against /repo's
+    current working tree."""
+    key = (variant, binary)
+    if key in _built:
+        return _built[key]
+    if (variant, None) in _built:
+        return _built[(variant, None)]
     hdir = _harness_dir()
     with Lock("cargo.lock"):
         t0 = time.time()
@@ -114,18 +118,20 @@ def build_harness(variant="std"):
             cmd = ["cargo", "build", "--release", "--offline", "--no-default-features",
                    "--features", "serial", "--target-dir", "target-serial"]
             tdir = os.path.join(hdir, "target-serial")
+        if binary:
+            cmd += ["--bin", binary]
         rc, out, err = run(cmd, cwd=hdir, timeout=1800,
                            env={"CARGO_NET_OFFLINE": "true"})
         if rc != 0:
             raise ToolError("harness build failed (%s):\n%s" % (variant, err[-4000:]))
-        log("[build] harness(%s) ok in %.1fs" % (variant, time.time() - t0))
-    _built[variant] = os.path.join(tdir, "release")
-    return _built[variant]
+        log("[build] harness(%s%s) ok in %.1fs" % (variant, "/" + binary if binary else "", time.time() - t0))
+    _built[key] = os.path.join(tdir, "release")
+    return _built[key]
 
 
 def harness(binary, args, stdin=None, timeout=1800, variant="std", env=None):
     """Runs a harness binary; returns stdout. Non-zero exit is a tool error."""
-    d = build_harness(variant)
+    d = build_harness(variant, binary)
     rc, out, err = run([os.path.join(d, binary)] + [str(a) for a in args],
                        stdin=stdin, timeout=timeout, env=env, cwd=VERIF)
     if rc != 0:
@@ -202,7 +208,9 @@ def tlc(module, cfg=None, workers=8, timeout=900, env=None, trace=False, extra=N
     jopts = "-Xss1g"
     if trace:
         jopts += " -Dtlc2.tool.queue.IStateQueue=StateDeque"
-    cmd = ["java", "-Xmx" + heap, "-XX:+UseParallelGC",
+    # -Xss on the command line (not only JAVA_TOOL_OPTIONS) also enlarges the main
+    # thread's stack: initial-state invariants and constant definitions run there
+    cmd = ["java", "-Xss1g", "-Xmx" + heap, "-XX:+UseParallelGC",
            "-cp", "%s:%s:%s" % (TLA_JAR, COMMUNITY, SPEC),
            "tlc2.TLC", "-workers", str(1 if trace else workers),
            "-metadir", meta, "-cleanup", "-noGenerateSpecTE",
